@@ -210,7 +210,7 @@ def expr_str(e, depth=0):
     """Compact canonical rendering of an expression (resolved names, no spans/types)."""
     if e is None:
         return ""
-    if depth > 12:
+    if depth > 24:
         return "…"
     k = e.get("k")
     d = depth + 1
